@@ -19,6 +19,14 @@ import (
 
 const Root = "/verif"
 
+// Repo is the tree the harness was built against (/repo; VERIF_REPO is a development aid for scratch worktrees).
+func Repo() string {
+	if r := os.Getenv("VERIF_REPO"); r != "" {
+		return r
+	}
+	return "/repo"
+}
+
 type Obligation struct {
 	Name   string `json:"name"`
 	Kind   string `json:"kind"` // theorem | side-condition | correspondence | contract
